@@ -392,6 +392,8 @@ class Factory:
                             b = os.path.basename(ss["file_name"])
                             if b.endswith(".rs") and b[:-3] in srcs:
                                 fn, lineno = b[:-3], ss["line_start"]
+                            elif b in owners:
+                                fn, lineno = owners[b], ss["line_start"]
                             ss = (ss.get("expansion") or {}).get("span")
                         if fn:
                             break
@@ -405,6 +407,7 @@ class Factory:
                     return si, bad, {"unattributed": unattributed or [p.stderr[-500:]], "cases": cur}
             return si, bad, {"unattributed": ["too many rounds"], "cases": cur}
 
+        owners = getattr(self, "file_owner", {})   # extra source files (CLI output) -> owning case
         self.unattributed = []
         with ThreadPoolExecutor(min(self.nshards, NCPU)) as ex:
             for si, bad, out in ex.map(build_shard, list(enumerate(shards))):
